@@ -36,6 +36,8 @@ CONDS = [
     ("c_scn", C("$S"), ">", 2, 2), ("c_scn", C("$S"), "<=", 9, 9),
     ("c_operation", op("BranchSum", C("$A"), 2, 3)), ("c_operation", op("BranchExecuteSub", 7)),
 ]
+COND_OPERATORS = ["FALSE", "TRUE", "==", ">", "<", ">=", "<=", "!=", "&", "^", "&<<"]
+ASSIGN_OPERATORS = ["=", "-=", "+=", "*=", "/="]
 SWITCH_HEADERS = [
     ("h_var", C("$V")), ("h_var", 12), ("h_op", op("message_Menu", 3)), ("h_op", op("ProcessSpecial", 1, 2, 3)),
     ("h_scn", C("$S"), 0), ("h_scn", C("$S"), 1), ("h_random", 5), ("h_dmode", C("D_X")), ("h_sector",),
@@ -123,6 +125,30 @@ def f1_constructs(tier: str) -> Iterator[tuple[str, dict[str, Any]]]:
     for ci, c in enumerate(CONDS):
         for neg in (False, True):
             yield f"F1.ifcond.{ci}.{neg}", wrap([("if", neg, [c], [op("t")], [], [op("e")])], fwd, back, "middle")
+    # atoms: every conditional / assignment operator in every header form that takes one, value and value(var)
+    for oi, o in enumerate(COND_OPERATORS):
+        for vi, (val, isvar) in enumerate(((5, False), (C("K"), False), (C("$W"), True), (0, True))):
+            yield (f"F1.atom.ifop.{oi}.{vi}",
+                   wrap([("if", vi % 2 == 1, [("c_op", C("$A"), o, val, isvar)], [op("t")], [], [op("e")])], fwd, back, "middle"))
+            yield (f"F1.atom.caseop.{oi}.{vi}",
+                   wrap([("switch", ("h_var", C("$V")), [(("k_op", o, val, isvar), [op("a"), ("ctrl", "break")]),
+                                                         (None, [op("d")])])], fwd, back, "middle"))
+        yield (f"F1.atom.whileop.{oi}",
+               wrap([("while", False, ("c_op", 2, o, 7, False), [op("w")])], fwd, back, "middle"))
+    for oi, o in enumerate(ASSIGN_OPERATORS):
+        for vi, (idx, val, isvar) in enumerate(((None, 6, False), (None, C("$W"), True), (None, C("K"), False), (2, 1, False),
+                                                (0, 3, False), (None, ("dec", "1.5"), False))):
+            yield f"F1.atom.assign.{oi}.{vi}", wrap([("assign", C("$V"), idx, o, val, isvar)], fwd, back, "middle")
+    for o in ("==", "<", "<=", ">", ">="):
+        for a, b in ((0, 0), (4, 1), (0x10, 3)):
+            yield f"F1.atom.scn.{o}.{a}.{b}", wrap([("if", False, [("c_scn", 3, o, a, b)], [op("t")], [], None)], fwd, back, "middle")
+    for i in (0, 1, 5, 12):
+        yield f"F1.atom.bit.{i}", wrap([("if", False, [("c_bit", False, 7, i)], [op("t")], [], None),
+                                        ("if", True, [("c_bit", False, C("$PERFORMANCE_PROGRESS_LIST"), i),
+                                                      ("c_bit", True, C("$PERFORMANCE_PROGRESS_LIST"), i + 1)], [op("u")], [], None),
+                                        ("assign", C("$PERFORMANCE_PROGRESS_LIST"), i, "=", 1, False),
+                                        ("assign", C("$PERFORMANCE_PROGRESS_LIST"), i, "=", 0, False),
+                                        ("setscn", 3, i, i + 1), ("dmode", i, 2), ("advlog", i)], fwd, back, "middle")
     for neg, eneg, e2neg in itertools.product((False, True), repeat=3):
         for bi in range(nb):
             elifs = [(eneg, [CONDS[4]], B[bi]), (e2neg, [CONDS[8], CONDS[0]], [op("e2")])]
